@@ -367,6 +367,10 @@ def run(R):
     extra_ok = True
     if os.environ.get("PXV_C19_E2E", "1") != "0" and not R.replay:
         extra_ok = config_stage(R) and extra_ok
+        # nesting and domain guards reach the compiler intact: the guard an inner blueprint registers decides, in the
+        # generated server, which Host reaches its routes (family gen_routes)
+        import domains_e2e
+        extra_ok = domains_e2e.domain_stage(R, "C19") and extra_ok
     bad = attrs.srcshape(R)
     if bad:
         R.violation("the macros' quote! templates no longer match the modelled attribute layout: " + "; ".join(bad)[:600],
